@@ -224,6 +224,62 @@ func init() {
 			pcs = append(pcs, pc)
 			metas = append(metas, meta{kinds})
 		}
+		// item counts, also the fixed count minItems == maxItems, on an array written inline, as a definition reached by
+		// $ref (two uses) and as array items: a wrong count must get the same verdict (and value) from both decoders
+		for _, lm := range [][2]int{{2, 2}, {1, 1}, {3, 3}, {1, 3}, {0, 2}, {2, 0}} {
+			for _, et := range []string{"number", "string"} {
+				for _, where := range []string{"inline", "definition", "definition-items"} {
+					arr := M{"type": "array", "items": M{"type": et}}
+					if lm[0] != 0 {
+						arr["minItems"] = lm[0]
+					}
+					if lm[1] != 0 {
+						arr["maxItems"] = lm[1]
+					}
+					elems := func(n int) []any {
+						out := []any{}
+						for k := 0; k < n; k++ {
+							if et == "number" {
+								out = append(out, k+1)
+							} else {
+								out = append(out, fmt.Sprintf("s%d", k))
+							}
+						}
+						return out
+					}
+					var schema M
+					var mk func(v any) any
+					switch where {
+					case "inline":
+						schema = M{"type": "object", "properties": M{"name": M{"type": "string"}, "origin": arr, "size": sgen.DeepCopy(arr)}, "required": []any{"name"}}
+						mk = func(v any) any { return M{"name": "a", "origin": v} }
+					case "definition":
+						schema = M{"type": "object", "properties": M{"name": M{"type": "string"}, "origin": M{"$ref": "#/$defs/Point"}, "size": M{"$ref": "#/$defs/Point"}}, "required": []any{"name"}, "$defs": M{"Point": arr}}
+						mk = func(v any) any { return M{"name": "a", "origin": v} }
+					default:
+						schema = M{"type": "object", "properties": M{"name": M{"type": "string"}, "points": M{"type": "array", "items": M{"$ref": "#/$defs/Point"}}}, "required": []any{"name"}, "$defs": M{"Point": arr}}
+						mk = func(v any) any { return M{"name": "a", "points": []any{v, v}} }
+					}
+					var docs []any
+					var kinds []string
+					for _, n := range []int{lm[0] - 1, lm[0], lm[1], lm[1] + 1, 0, 5} {
+						if n < 0 {
+							continue
+						}
+						docs = append(docs, mk(elems(n)))
+						if (lm[0] != 0 && n < lm[0]) || (lm[1] != 0 && n > lm[1]) {
+							kinds = append(kinds, "length")
+						} else {
+							kinds = append(kinds, "valid")
+						}
+					}
+					pc := baseCase("c17-array-counts", schema, docs, fmt.Sprint(lm), et, where)
+					pc.Cfg.ExtraImports = true
+					pcs = append(pcs, pc)
+					metas = append(metas, meta{kinds})
+				}
+			}
+		}
 		res := runCases(c, pcs)
 		fails := 0
 		for ri, r := range res {
